@@ -83,6 +83,12 @@ Proof. exact (sptensor_line D T d0 print 1%Z). Qed.
 Theorem C16_roundtrip_lines : forall (ofZ : Z -> D) (b : Z) (o : obj D), wf_obj D o -> wf_lines D o ->
   import_lines D T d0 parse ofZ b (export_lines D T d0 print b o) = Some o.
 Proof. exact (fun ofZ => roundtrip_lines D T d0 print parse ofZ parse_print). Qed.
+(* import's range lies inside the round-trip domain: whatever object import_data returns for SOME accepted file (well-formed
+   or not, read with any index base b'), export followed by import (any base b) gives exactly that object again *)
+Theorem C16_import_export_stable : forall (ofZ : Z -> D) (b b' : Z) (f : list (list (token T))) (o : obj D),
+  import_lines D T d0 parse ofZ b' f = Some o ->
+  import_lines D T d0 parse ofZ b (export_lines D T d0 print b o) = Some o.
+Proof. exact (fun ofZ => import_export_stable D T d0 print parse ofZ parse_print). Qed.
 End C16.
 
 Section C16_guards.
@@ -119,6 +125,14 @@ Theorem C16_import_sptensor_in_range : forall (b : Z) (f : list (list (token T))
   import_lines D T d0 parse ofZ b f = Some (OSptensor Sp) ->
   Forall (fun i => inb (sshape Sp) i = true) (ssubs Sp) /\ length (ssubs Sp) = length (svals Sp).
 Proof. exact (import_sptensor_in_range D T d0 parse ofZ). Qed.
+
+(* WHATEVER file import_data accepts (well-formed or not, any index base), the object it returns satisfies the class invariants:
+   dense data as long as the shape says (none without modes), one value per stored subscript and every subscript inside the
+   shape, factor matrices with as many columns as weights were read, matrices with m rows of n entries, arrays as long as
+   their shape says; objects without modes hold nothing (wf_lines) *)
+Theorem C16_import_wf : forall (b : Z) (f : list (list (token T))) (o : obj D),
+  import_lines D T d0 parse ofZ b f = Some o -> wf_obj D o /\ wf_lines D o.
+Proof. exact (import_wf D T d0 parse ofZ). Qed.
 
 (* import_shape, EXACTLY: the order line's first token is an integer text n, all tokens of the sizes line are integer texts and
    there are n of them — an empty sizes line exactly for n = 0 *)
@@ -240,6 +254,7 @@ Print Assumptions C16_export_injective.
 Print Assumptions C16_index_base.
 Print Assumptions C16_one_based.
 Print Assumptions C16_roundtrip_lines.
+Print Assumptions C16_import_export_stable.
 Print Assumptions C16_entry_line.
 Print Assumptions C16_entry_line_rejects.
 Print Assumptions C16_import_type_guard.
@@ -258,6 +273,7 @@ Print Assumptions C16_tab_joins_texts.
 Print Assumptions C16_dense_values.
 Print Assumptions C16_import_order0.
 Print Assumptions C16_import_shape_guard.
+Print Assumptions C16_import_wf.
 Print Assumptions C16_cr_is_white_space.
 Print Assumptions C16_import_cr_is_white_space.
 Print Assumptions C16_roundtrip_text_cr.
@@ -314,6 +330,14 @@ Example C16_example_malformed :
   /\ zimport_lines 1 (firstn 4 good ++ [[Int 2; Num 7]; [Int 1; Int 1; Num 9]])%Z
        = Some (OSptensor (mkSp [2; 3] [[1; 1]; [0; 0]] [7; 9]%Z)).      (* ONE subscript: broadcast to both modes *)
 Proof. vm_compute. repeat split; reflexivity. Qed.
+
+(* what import returns for a file that export would never write (one subscript broadcast to both modes, junk after the header
+   tokens, base 0) is an ordinary object: exported and imported again it comes back (C16_import_wf, C16_import_export_stable) *)
+Example C16_example_stable :
+  let odd := [[Word "sptensor"; Word "x"]; [Int 2; Num 5]; [Int 2; Int 3]; [Int 2]; [Int 1; Num 7]; [Int 0; Int 0; Num 9]]%Z in
+  let o := OSptensor (mkSp [2; 3] [[1; 1]; [0; 0]] [7; 9]%Z) in
+  zimport_lines 0 odd = Some o /\ zimport_lines 1 (zexport_lines 1 o) = Some o /\ zexport_lines 1 o <> odd.
+Proof. vm_compute. repeat split; try reflexivity. discriminate. Qed.
 
 (* dense values are read with np.fromfile: line breaks between them do not matter, a word among them does *)
 Example C16_example_dense_lines :
